@@ -67,9 +67,15 @@ MexprTrees(G, ty, atoms, d) ==
 
 (* match(t, t', P) of islaspec; `at` is the path of t in the reference tree *)
 RECURSIVE Match(_, _, _, _)
+(* An open leaf of the match tree (a nonterminal of the expression's text)  *)
+(* matches any subtree with its label; a closed node without children (a    *)
+(* terminal, or a nonterminal expanded to the empty string) only matches a  *)
+(* node that has no children either.                                        *)
 Match(t, m, P, at) ==
-  IF Label(t) # Label(m) \/ (Len(m.ch) > 0 /\ Len(t.ch) # Len(m.ch)) THEN [ok |-> FALSE, b |-> {}]
+  IF Label(t) # Label(m) THEN [ok |-> FALSE, b |-> {}]
   ELSE IF \E x \in P : x[2] = <<>> THEN [ok |-> TRUE, b |-> { <<x[1], at>> : x \in { y \in P : y[2] = <<>> } }]
+  ELSE IF m.open THEN [ok |-> TRUE, b |-> {}]
+  ELSE IF t.open \/ Len(t.ch) # Len(m.ch) THEN [ok |-> FALSE, b |-> {}]
   ELSE IF Len(m.ch) = 0 THEN [ok |-> TRUE, b |-> {}]
   ELSE LET rs == [j \in 1..Len(m.ch) |->
                     Match(t.ch[j], m.ch[j],
